@@ -43,6 +43,8 @@ def strategy_case(draw):
         case["a"] = draw(st.sampled_from([0.1, 0.5, 1.0]))
     if draw(st.floats(0, 1)) < 0.25:
         case["start_R"] = draw(gen.ranks(d, 4))
+    if routine == "fi_multi" and draw(st.booleans()):
+        case["fi_args"] = "tt"
     return case
 
 
@@ -64,6 +66,45 @@ def _g(case, s):
     if t == "cos":
         return torch.cos(s / float(max(case["N"])))
     raise core.HarnessError(t)
+
+
+def _fi_multi_tt(T, ck, case, mon, start):
+    """function_interpolate with a list of two general (rank-2, Gaussian) argument tensors and f(v) = v0 + 2 v1:
+    every row handed to f must be (x1[I], x2[I]) for one multi-index I."""
+    N, eps = case["N"], case["eps"]
+    d = len(N)
+    ck.label("fi_args:tt")
+    xs = [T.TT(core.make_cores({"N": N, "R": [1] + [2] * (d - 1) + [1], "dt": "f64", "mode": "gauss", "seed": case["seed"] + 20 + j}))
+          for j in range(2)]
+    dd = [dense(x.cores).reshape(-1) for x in xs]
+    scale = max(float(dd[0].abs().max()), float(dd[1].abs().max()), 1e-300)
+    keys = set(zip((dd[0] / scale * 1e9).round().to(torch.int64).tolist(), (dd[1] / scale * 1e9).round().to(torch.int64).tolist()))
+
+    def f(V):
+        mon["calls"] += 1
+        if mon["bad"] is None:
+            if not torch.is_tensor(V) or V.dim() != 2 or V.shape[1] != 2:
+                mon["bad"] = "argument is not an M x 2 matrix: %s" % (list(V.shape) if torch.is_tensor(V) else type(V))
+            else:
+                a = (V[:, 0] / scale * 1e9).round().to(torch.int64).tolist()
+                b = (V[:, 1] / scale * 1e9).round().to(torch.int64).tolist()
+                for u_, v_ in zip(a, b):
+                    if (u_, v_) not in keys and not any((u_ + i, v_ + j) in keys for i in (-1, 0, 1) for j in (-1, 0, 1)):
+                        mon["bad"] = "a row handed to f is not (x1[I], x2[I]) for any multi-index I"
+                        break
+        mon["evals"] += V.shape[0]
+        return V[:, 0] + 2.0 * V[:, 1]
+    torch.manual_seed(case["lib_seed"])
+    y = lib(lambda: T.interpolate.function_interpolate(f, xs, eps=eps, start_tens=start))
+    ref = (dd[0] + 2.0 * dd[1]).reshape(N)
+    ck.require(mon["bad"] is None, "callback_arguments", str(mon["bad"]))
+    ck.require(mon["calls"] > 0, "callback_never_called", "the user function was never called")
+    if ck.require(isinstance(y, T.TT) and not y.is_ttm and [int(n) for n in y.N] == list(N), "shape", "result kind/shape"):
+        yd = dense(y.cores)
+        if ck.require(bool(torch.isfinite(yd).all()), "finite", "result contains inf/nan"):
+            ck.bound(fro(yd - ref), C_EPS * eps * fro(ref), "accuracy:fi_multi_tt", "eps=%g ranks=%s" % (eps, y.R))
+    ck.nontrivial = min(N) < 5 or len(set(N)) > 1
+    return ck.verdict()
 
 
 def execute(case):
@@ -136,7 +177,10 @@ def execute(case):
         torch.manual_seed(case["lib_seed"])
         y = lib(lambda: T.interpolate.function_interpolate(f, x, eps=eps, start_tens=start))
     else:
-        vecs = [torch.arange(n, dtype=torch.float64) * (1.0 + 0.0 * k) for k, n in enumerate(N)]
+        if case.get("fi_args") == "tt":
+            return _fi_multi_tt(T, ck, case, mon, start)
+        # every argument tensor gets its own value range (100*k + i), so a value taken from the wrong argument is visible
+        vecs = [100.0 * k + torch.arange(n, dtype=torch.float64) for k, n in enumerate(N)]
         xs = T.meshgrid(vecs)
 
         def f(V):
@@ -146,12 +190,13 @@ def execute(case):
                     mon["bad"] = "argument is not an M x d matrix: %s" % (list(V.shape) if torch.is_tensor(V) else type(V))
                 else:
                     for k in range(d):
-                        col = V[:, k]
+                        col = V[:, k] - 100.0 * k
                         if float((col - col.round()).abs().max()) > 1e-8 or float(col.min()) < -1e-8 or float(col.max()) > N[k] - 1 + 1e-8:
                             mon["bad"] = "column %d holds values that are not entries of argument tensor %d" % (k, k)
                             break
             mon["evals"] += V.shape[0]
-            return _g(case, V.sum(1))
+            off = sum(100.0 * k for k in range(d))
+            return _g(case, V.sum(1) - off)
         torch.manual_seed(case["lib_seed"])
         y = lib(lambda: T.interpolate.function_interpolate(f, xs, eps=eps, start_tens=start))
 
